@@ -410,6 +410,33 @@ func (s *S) Run(c *scen.Ctx) {
 		simrt.Sleep(500 * time.Millisecond)
 	}
 	simrt.Sleep(3 * time.Second)
+	// A pool worker that echoes a large packet to a client that has stopped reading sits in its
+	// write for up to the write time-out, with the packets behind it waiting in the queue: the
+	// run is over when nothing has been handed to a protocol layer and nothing has been written
+	// for longer than one such write can take.
+	progress := func() (int, int) {
+		s.mu.Lock()
+		n := 0
+		for _, g := range s.srvGot {
+			n += len(g)
+		}
+		for _, g := range s.cliGot {
+			n += len(g)
+		}
+		s.mu.Unlock()
+		b := 0
+		for _, pr := range simnet.Pairs() {
+			b += pr.S2C.Len() + pr.C2S.ReadOffset()
+		}
+		return n, b
+	}
+	for i := 0; i < 60; i++ {
+		n0, b0 := progress()
+		simrt.Sleep(s.writeTO + time.Second)
+		if n1, b1 := progress(); n1 == n0 && b1 == b0 {
+			break
+		}
+	}
 	s.mu.Lock()
 	s.done = true
 	s.mu.Unlock()
